@@ -74,7 +74,10 @@ NEG = {
 }
 from .costparams import NEG as _cp_neg  # noqa: E402
 
+from .scorersizes import NEG as _ss_neg  # noqa: E402
+
 NEG["C01"] = NEG["C01"] + _cp_neg
+NEG["C13"] = NEG["C13"] + _ss_neg
 # properties decided through another property's model
 NEG["C06"] = NEG["C01"][1:3]
 NEG["C16"] = [NEG["C03"][1]]
